@@ -56,6 +56,8 @@ std::string Ctx::gname(const GlobalValue* G)
     std::string base = sanitize(G->getName());
     if (auto* F = dyn_cast<Function>(G))
         if (F->isDeclaration() && !F->getName().startswith("verif_")) base = "verif_rt_" + base;
+    if (auto* GV = dyn_cast<GlobalVariable>(G))
+        if (GV->isDeclaration()) base = "verif_xg_" + base;
     std::string n = base;
     int k = 0;
     while (usedNames.count(n)) n = base + "_" + std::to_string(++k);
@@ -157,7 +159,7 @@ void Ctx::emitTypeDecls(raw_ostream& os)
             os << (first ? "" : ", ") << ty(P);
             first = false;
         }
-        if (FT->isVarArg()) os << (first ? "" : ", ") << "...";
+        if (FT->isVarArg()) os << (first ? "" : ", ...");
         else if (first) os << "void";
         os << ");\n";
     };
@@ -498,4 +500,15 @@ bool isVisibleInst(const Instruction& I)
             if (n == "verif_block_until" || n == "verif_spin" || n == "verif_spin_timed" || n == "verif_yield") return true;
         }
     return false;
+}
+
+bool compatibleFT(FunctionType* A, FunctionType* B)
+{
+    if (A == B) return true;
+    auto same = [](Type* x, Type* y) { return x == y || (x->isPointerTy() && y->isPointerTy()); };
+    if (A->isVarArg() != B->isVarArg() || A->getNumParams() != B->getNumParams()) return false;
+    if (!same(A->getReturnType(), B->getReturnType())) return false;
+    for (unsigned i = 0; i < A->getNumParams(); ++i)
+        if (!same(A->getParamType(i), B->getParamType(i))) return false;
+    return true;
 }
